@@ -59,7 +59,14 @@ def wsdl_split(d) -> dict:
     rest = whole[whole.index("<binding"):]
     is_hdr = lambda x: 'name="Auth"' in x or 'name="Audit"' in x or 'name="AuthHeader"' in x  # noqa: E731
     schema = lambda items: f'<types><xsd:schema targetNamespace="{tns}" elementFormDefault="qualified">{"".join(items)}</xsd:schema></types>'  # noqa: E731
-    iface = head + schema([e for e in els if not is_hdr(e)]) + "".join(m for m in msgs if not is_hdr(m)) + port + "</definitions>"
+    # the imported document spells the references of its message parts with a prefix of its OWN (q, declared on each
+    # message); the importing document binds the same prefix to another namespace: a QName means what the scope it is
+    # written in says
+    def requalify(m):
+        return m.replace("<message ", f'<message xmlns:q="{tns}" ', 1).replace('element="tns:', 'element="q:').replace('type="tns:', 'type="q:')
+
+    iface = head + schema([e for e in els if not is_hdr(e)]) + "".join(requalify(m) for m in msgs if not is_hdr(m)) + port + "</definitions>"
+    head = head.replace("<definitions ", '<definitions xmlns:q="urn:somewhere-else" ', 1)
     hdr_els = [e for e in els if is_hdr(e)]
     svc = (head + f'<import namespace="{tns}" location="iface.wsdl"/>' + (schema(hdr_els) if hdr_els else "")
            + "".join(m for m in msgs if is_hdr(m)) + rest)
